@@ -222,6 +222,17 @@ def run_dist(r, case, g):
             if tuple(m.shape) != want_shape:
                 r.viol("mean_shape", "%s.mean returns the wrong shape" % label, got=list(m.shape), expected=list(want_shape), **det)
                 continue
+            if c is None and not me["needs_ctx"] and cfg["dist"] in ("standard", "diag"):
+                # unconditional distributions take a context only for its row count: one copy of the mean per row
+                try:
+                    mk = d.mean(torch.zeros(3, 2))
+                    r.ev()
+                    r.count("mean_with_context_rows")
+                    if tuple(mk.shape) != (3,) + tuple(shape) or not bool((mk == m[None]).all()):
+                        r.viol("mean_shape", "%s.mean(context) is not one copy of the mean per context row" % label,
+                               got=list(mk.shape), expected=[3] + list(shape), **det)
+                except Exception as e:
+                    r.viol("mean_raises", "%s.mean raises" % label, exc=repr(e)[:200], with_context_rows=3, **det)
             mflat = m.detach().reshape(-1).double()
             # expectation from log_prob
             if me["discrete"]:
